@@ -50,7 +50,8 @@ LEVEL_TEXT = ("Lean 4 theorems: for every list of payload leaves (any buffer-pro
               "threshold >= 1, batching on or off and every completion order of chunk consumers, take's manifest entries restored from "
               "the written storage give back exactly the saved leaves, and the result is independent of the knobs; flatten/inflate "
               "returns the same containers (C15). The composition uses the proved kernels of C15, C16, C17. Tied to the code by the "
-              "model-vs-real comparison of manifests and stored bytes, and by the end-to-end oracle over the full configuration space.")
+              "model-vs-real comparison of manifests and stored bytes, and by the end-to-end oracle over the full configuration space."
+              ' Whole-job composition (TsModel/World.lean): for every world size, per-rank state, replication set and partition of the replicated units, every rank restores every leaf exactly - into no target, a matching pre-allocated tensor with any old contents, or a mismatching one - by restore and by read_object under any budget (C01_world_roundtrip, C01_world_roundtrip_any_target).')
 LEVEL_NOTE = ("The end-to-end statement is a composition: structure (C15_inverse) + bytes (C01_dataplane_roundtrip) + serialization (C17) "
               "+ metadata (C14) + who-loads-what (C07); location naming and scheduling enter as hypotheses discharged by C05/C11. "
               "Trusted: Lean kernel, hand models, harness, torch layout handling and the torch.save codec.")
